@@ -299,6 +299,17 @@ func ruleLMTPLoopComplete(c *Ctx) {
 					}
 					if len(H) == 1 {
 						c.obUnreach("return from inside the reply loop", in, H...)
+						// ... and what it returns is that failed read's error, not a verdict kept from an
+						// earlier recipient (nil when every earlier recipient was accepted): the caller must
+						// learn that replies are missing
+						a := replyErrAtomsIn(f, li.blocks)[0]
+						good, leaves := true, leafSources(returnedValues(in.(*ssa.Return))[0])
+						for _, l := range leaves {
+							if !strings.Contains(l, a) || strings.Contains(l, "assert[") {
+								good = false
+							}
+						}
+						R.Ob(c.siteKey(in, "return from inside the reply loop hands out the read error"), c.P.InstrPos(in), good && len(leaves) > 0, fmt.Sprintf("the return inside the reply loop yields %v, not the error of the failed read (%s)", leaves, a))
 					} else {
 						R.Ob(c.siteKey(in, "return from inside the reply loop"), c.P.InstrPos(in), false, fmt.Sprintf("%d reply reads in the loop function: which reply the return belongs to is not decided", len(H)))
 					}
